@@ -385,10 +385,20 @@ func (c *specCtx) localName(name string) (tv, bool) {
 			}
 		}
 	}
-	// address-taken variables (captured by closures, &x): their value lives in a cell
+	// address-taken variables (captured by closures, &x): their value lives in a cell.
+	// In pre/postconditions (no program point) a parameter name means its entry value.
+	isParam := false
+	for _, p := range fn.Params {
+		if p.Name() == name {
+			isParam = true
+		}
+	}
 	for _, b := range fn.Blocks {
+		if c.blk == nil && isParam {
+			break
+		}
 		for _, ins := range b.Instrs {
-			if a, ok := ins.(*ssa.Alloc); ok && a.Comment == name && !a.Heap == false {
+			if a, ok := ins.(*ssa.Alloc); ok && a.Comment == name && a.Heap {
 				if _, defined := fr.vals[a]; defined {
 					lv := fr.addrOf(a)
 					return tv{fr.load(lv, c.st), deref(a.Type())}, true
